@@ -477,6 +477,7 @@ def main():
                 nd = len(plan.get('decisions', []))
                 mn = Minimiser(bins[plan['variant']], plan, v['class'], v['site'], outdir, cfg.get('min_runs', 120), cfg.get('min_seconds', 60))
                 best = mn.run()
+                best['violation'] = {'class': v['class'], 'site': v['site'], 'detail': str(v.get('detail', ''))[:2500]}
                 best['minimised_from'] = {'plan_items': before, 'decisions': nd, 'to_items': plan_size(best), 'to_decisions': len(best.get('decisions', [])), 'replays_used': mn.runs}
                 final = os.path.join(outdir, 'violation-%s-%s.json' % (prop, v['seed']))
                 json.dump(best, open(final, 'w'))
